@@ -273,6 +273,15 @@ def harness_specs(palette=0):
     # long links: more than 10 segments (and VSL signs on two-digit segment indices)
     H["long"] = NetSpec(3, (L(0, 0, 1, 12, (1, 8, 11)), L(1, 1, 2, 11)), (OriginS(0, "main", C[0]), OriginS(1, "ramp_out", C[1])),
                         (DestS(2, "cong"),))
+    # larger structures: three leaving links / three entering links (plus a ramp) with different segment counts, and two
+    # parallel paths that split and merge again
+    H["tri_split"] = NetSpec(5, (L(0, 0, 1, 2), L(1, 1, 2, 2), L(2, 1, 3, 3), L(3, 1, 4, 1)),
+                             (OriginS(0, "main", C[0]),), (DestS(2, "cong"), DestS(3, "free"), DestS(4, "free")))
+    H["tri_merge"] = NetSpec(5, (L(0, 0, 3, 3), L(1, 1, 3, 3, (0, 2)), L(2, 2, 3, 1), L(3, 3, 4, 2)),
+                             (OriginS(0, "ideal", C[0]), OriginS(1, "main", C[1]), OriginS(2, "ramp_out", C[2]),
+                              OriginS(3, "ramp_in", C[0])), (DestS(4, "cong"),))
+    H["diamond"] = NetSpec(6, (L(0, 0, 1, 1), L(1, 1, 2, 2), L(2, 1, 3, 3), L(3, 2, 4, 3), L(4, 3, 4, 1), L(0, 4, 5, 2)),
+                           (OriginS(0, "ramp_out", C[0]),), (DestS(5, "free"),))
     for k, s in H.items():
         assert spec_valid(s), k
     return H
